@@ -1,5 +1,3 @@
-//go:build wip_c18
-
 package kit
 
 // K6 (AST flavour), part 3: enumeration and discharge of panic obligations.
